@@ -91,6 +91,10 @@ def sweep_cases(rng, full_words):
             cases.append((desc, chunk))
         # unassigned function codes
         cases.append((desc, [{'t': 'illegalFunction', 'fc': fc, 'data': [0, 1, 0, 1]} for fc in execlib.UNASSIGNED_FC]))
+        # function codes with the top bit set are unassigned too (they are what exception REPLIES carry): as requests they get
+        # exception 01 like any other, whatever their payload looks like (nothing, one byte, an exception code, several bytes)
+        cases.append((desc, [{'t': 'illegalFunction', 'fc': fc, 'data': data}
+                             for fc in (0x80, 0x81, 0x83, 0x90, 0xAB, 0xFE, 0xFF) for data in ([], [1], [2], [4], [0x0B], [0], [7], [2, 0], [1, 2, 3])]))
     return cases
 
 
